@@ -165,6 +165,12 @@ def templates(tier, seed):
     T.append(("rewrite:cnot", "set Q0 0\nset Q1 1\ncnot Q0 Q1\nset Q0 2\ncnot Q1 Q0\nset Q1 0\ncphase Q0 Q1\n"))
     T.append(("rewrite:scratch", "set Q0 1\nset Q1 2\ncnot Q0 Q1\nset Q2 0\nh Q2\ncphase Q1 Q0\nx Q2\n"))
     T.append(("rewrite:two_cc", "set Q1 1\nset Q2 2\ncnot Q1 Q2\nset Q0 2\nx Q0\ncphase Q2 Q1\ny Q0\n"))
+    # the same `set` inside a block that may be skipped and right after it; a loop body that starts with the pre-loop value and
+    # changes the register later (register contents are not a linear function of the program text)
+    for v, w in ((0, 1), (1, 2), (2, 0)):
+        T.append((f"setskip:{v}{w}", f"set Q0 {v}\nset R0 77770\nbeq R0 0 SKIP\nset Q0 {w}\nx Q0\nSKIP:\nset Q0 {w}\nh Q0\nset Q0 {v}\nt Q0\n"))
+        T.append((f"setloop:{v}{w}", f"set Q0 {v}\nset R0 0\nLOOP:\nbeq R0 2 END\nset Q0 {v}\nh Q0\nset Q0 {w}\nx Q0\nadd R0 R0 1\njmp LOOP\nEND:\nset Q0 {w}\nz Q0\n"))
+        T.append((f"setskip2:{v}{w}", f"set Q0 {v}\nset Q1 {w}\nset R0 77770\nbne R0 0 SKIP\nset Q1 {v}\nset Q0 {w}\ncnot Q0 Q1\nSKIP:\nset Q0 {w}\nset Q1 {v}\ncphase Q0 Q1\n"))
     # Q register written by load (recorded finding: the transpiler only tracks `set`)
     T.append(("load:single", "set R0 1\narray R0 @0\nset R1 0\nset R2 1\nstore R2 @0[R1]\nload Q0 @0[R1]\nh Q0\n"))
     T.append(("load:two", "set R0 1\narray R0 @0\nset R1 0\nset R2 2\nstore R2 @0[R1]\nset Q0 1\nload Q1 @0[R1]\ncnot Q0 Q1\n"))
